@@ -48,6 +48,10 @@ def cases(tier, seed):
                 if not depth1 and tier == "quick" and b:
                     continue
                 out.append({"name": name, "term": term, "batch": b, "cfg": cfg})
+    # sizes above every built-in iteration constant (20 Lanczos-quadrature / 15 preconditioner steps) and below the rank bound (100)
+    for nm, term in (("DensePSD24", ["Dense", {"n": 24, "m": 24, "kind": "psd"}]), ("AddedDiag24", ["AddedDiag", {}, ["Dense", {"n": 24, "m": 24, "kind": "psd"}], ["Diag", {"n": 24}]])):
+        for cfg in ({"max_cholesky_size": 0}, {}):
+            out.append({"name": nm, "term": term, "batch": [], "cfg": cfg})
     return out
 
 
